@@ -1581,4 +1581,48 @@ NEW2 += [
       edits=[(T, '\tif name == "" {\n\t\treturn errors.New("a trust policy statement is missing a name', '\tif len(trustStores) == 0 && len(name) == 0 {\n\t\treturn errors.New("a trust policy statement is missing a name')]),
 ]
 
+# ---- class: gates moved into a helper at another boundary (construction), the internal set replaced by a plain map,
+# library equivalents of strings.Contains ------------------------------------------------------------------------------
+CTOR_CHECKS = '\tif ociTrustPolicy != nil {\n\t\tif err := ociTrustPolicy.Validate(); err != nil {\n\t\t\treturn nil, err\n\t\t}\n\t}\n\tif blobTrustPolicy != nil {\n\t\tif err := blobTrustPolicy.Validate(); err != nil {\n\t\t\treturn nil, err\n\t\t}\n\t}\n'
+CTOR_HELPER_DECL = '// validatePolicies validates the trust policy documents that are set\nfunc validatePolicies(oci *trustpolicy.OCIDocument, blob *trustpolicy.BlobDocument) error {\n\tif oci != nil {\n\t\tif err := oci.Validate(); err != nil {\n\t\t\treturn err\n\t\t}\n\t}\n\tif blob != nil {\n\t\treturn blob.Validate()\n\t}\n\treturn nil\n}\n\n'
+CTOR_HELPER = [(V, CTOR_CHECKS, '\tif err := validatePolicies(ociTrustPolicy, blobTrustPolicy); err != nil {\n\t\treturn nil, err\n\t}\n'),
+               (V, '// NewVerifierWithOptions creates a new verifier given trustStore and\n', CTOR_HELPER_DECL + '// NewVerifierWithOptions creates a new verifier given trustStore and\n')]
+MAPSET_O = [(O, '\tpolicyNames := set.New[string]()\n', '\tpolicyNames := make(map[string]struct{}, len(policyDoc.TrustPolicies))\n'),
+            (O, '\t\tif policyNames.Contains(statement.Name) {', '\t\tif _, seen := policyNames[statement.Name]; seen {'),
+            (O, '\t\tpolicyNames.Add(statement.Name)\n', '\t\tpolicyNames[statement.Name] = struct{}{}\n'),
+            (O, '\tset "github.com/notaryproject/notation-go/internal/container"\n', '')]
+MAPSET_B = [(B, '\tpolicyNames := set.New[string]()\n', '\tpolicyNames := map[string]bool{}\n'),
+            (B, '\t\tif policyNames.Contains(statement.Name) {', '\t\tif policyNames[statement.Name] {'),
+            (B, '\t\tpolicyNames.Add(statement.Name)\n', '\t\tpolicyNames[statement.Name] = true\n'),
+            (B, '\tset "github.com/notaryproject/notation-go/internal/container"\n', '')]
+NEW2 += [
+ dict(name='benign-constructor-validation-helper', expect='silent', edits=CTOR_HELPER),
+ dict(name='benign-constructor-documents-from-options', expect='silent',
+      edits=[(V, '\t\tociTrustPolicyDoc:  ociTrustPolicy,\n\t\tblobTrustPolicyDoc: blobTrustPolicy,\n', '\t\tociTrustPolicyDoc:  verifierOptions.OCITrustPolicy,\n\t\tblobTrustPolicyDoc: verifierOptions.BlobTrustPolicy,\n')]),
+ dict(name='constructor-helper-skips-blob', expect='flagged(forced/validate-blobdocument)',
+      edits=CTOR_HELPER + [(V, '\tif blob != nil {\n\t\treturn blob.Validate()\n\t}\n\treturn nil\n}', '\tif blob != nil && oci == nil {\n\t\treturn blob.Validate()\n\t}\n\treturn nil\n}')]),
+ dict(name='constructor-helper-error-dropped', expect='flagged(forced/validate-)',
+      edits=CTOR_HELPER + [(V, '\tif err := validatePolicies(ociTrustPolicy, blobTrustPolicy); err != nil {\n\t\treturn nil, err\n\t}\n', '\t_ = validatePolicies(ociTrustPolicy, blobTrustPolicy)\n')]),
+ dict(name='constructor-helper-other-document', expect='flagged(forced/validate-ocidocument)',
+      edits=CTOR_HELPER + [(V, '\tif err := validatePolicies(ociTrustPolicy, blobTrustPolicy); err != nil {', '\tif err := validatePolicies(&trustpolicy.OCIDocument{}, blobTrustPolicy); err != nil {')]),
+ dict(name='constructor-stores-unvalidated-document', expect='flagged(forced/validate-ocidocument)',
+      edits=CTOR_HELPER + [(V, '\t\tociTrustPolicyDoc:  ociTrustPolicy,\n', '\t\tociTrustPolicyDoc:  verifierOptions.OCITrustPolicy,\n'),
+                           (V, '\tociTrustPolicy := verifierOptions.OCITrustPolicy\n', '\tociTrustPolicy := verifierOptions.OCITrustPolicy\n\tif ociTrustPolicy != nil && len(ociTrustPolicy.TrustPolicies) > 8 {\n\t\tociTrustPolicy = nil\n\t}\n')]),
+ dict(name='benign-name-set-plain-map', expect='silent', edits=MAPSET_O + MAPSET_B),
+ dict(name='name-map-value-false', expect='flagged(blob/document/duplicate-name)',
+      edits=MAPSET_O + MAPSET_B[:2] + [(B, '\t\tpolicyNames.Add(statement.Name)\n', '\t\tpolicyNames[statement.Name] = statement.GlobalPolicy\n'), MAPSET_B[3]]),
+ dict(name='name-map-other-key', expect='flagged(oci/document/duplicate-name)',
+      edits=MAPSET_O[:2] + [(O, '\t\tpolicyNames.Add(statement.Name)\n', '\t\tpolicyNames[statement.SignatureVerification.VerificationLevel] = struct{}{}\n'), MAPSET_O[3]] + MAPSET_B),
+ dict(name='name-map-two-maps', expect='flagged(oci/document/duplicate-name)',
+      edits=MAPSET_O[:1] + [(O, '\t\tif policyNames.Contains(statement.Name) {', '\t\tother := make(map[string]struct{}, 1)\n\t\tif _, seen := other[statement.Name]; seen {'), MAPSET_O[2], MAPSET_O[3]] + MAPSET_B),
+ dict(name='benign-scope-star-containsrune', file=O, expect='silent',
+      find='\tif len(scope) > 1 && strings.Contains(scope, "*") {', replace="\tif len(scope) > 1 && strings.ContainsRune(scope, '*') {"),
+ dict(name='benign-scope-star-count', file=O, expect='silent',
+      find='\tif len(scope) > 1 && strings.Contains(scope, "*") {', replace='\tif len(scope) > 1 && strings.Count(scope, "*") != 0 {'),
+ dict(name='scope-star-containsrune-other-rune', file=O, expect='flagged(scope-format/no-embedded-wildcard)',
+      find='\tif len(scope) > 1 && strings.Contains(scope, "*") {', replace="\tif len(scope) > 1 && strings.ContainsRune(scope, '?') {"),
+ dict(name='scope-star-count-two', file=O, expect='flagged(scope-format/no-embedded-wildcard)',
+      find='\tif len(scope) > 1 && strings.Contains(scope, "*") {', replace='\tif len(scope) > 1 && strings.Count(scope, "*") > 1 {'),
+]
+
 VARIANTS += NEW2
